@@ -58,3 +58,61 @@ def evaluate(cases, tag, expr_fn=None, shard=40):
         c.raw = r
         c.result = parse_report(r, c.names)
     return cases
+
+
+def parse_data(s):
+    """'0,1=3 2,0=4' -> {('0','1'): 3.0, ...} (coordinates kept as strings; rank-0: '=5')."""
+    d = {}
+    for item in s.split(" "):
+        if not item:
+            continue
+        cs, _, v = item.rpartition("=")
+        try:
+            val = float(v)
+        except ValueError:
+            val = float("nan")
+        d[tuple(cs.split(",")) if cs else ()] = val
+    return d
+
+
+def diff_class(out, ranks, extents):
+    """Classify a `DIFF got[..] exp[..]` report: -> dict(out_of_extent, diff) where diff is
+       'out-of-extent-only' (every point inside the declared extents is right, extra points lie outside),
+       'under' / 'over' (every wrong in-extent point is smaller / larger than the Einsum defines; inputs are positive,
+       so these are lost / repeated contributions), or 'mixed'."""
+    m = re.match(r'DIFF got\[(.*?)\] exp\[(.*?)\]$', out)
+    if not m:
+        return {"out_of_extent": False, "diff": "other"}
+    got, exp = parse_data(m.group(1)), parse_data(m.group(2))
+
+    def inside(p):
+        for c, r in zip(p, ranks):
+            try:
+                v = float(c)
+            except ValueError:
+                return False
+            if v != int(v) or v < 0 or v >= extents[r]:
+                return False
+        return True
+    ooe = any(not inside(p) for p in got)
+    lo = hi = 0
+    for p in set(got) | set(exp):
+        if not inside(p):
+            continue
+        g, e = got.get(p, 0.0), exp.get(p, 0.0)
+        if g < e:
+            lo += 1
+        elif g > e:
+            hi += 1
+        elif g != e:
+            lo += 1
+            hi += 1
+    if lo == 0 and hi == 0:
+        cls = "out-of-extent-only" if ooe else "other"
+    elif hi == 0:
+        cls = "under"
+    elif lo == 0:
+        cls = "over"
+    else:
+        cls = "mixed"
+    return {"out_of_extent": ooe, "diff": cls}
